@@ -25,6 +25,12 @@ use std::fmt::*;
 use std::mem;
 use std::time::*;
 
+/// Adds a duration to a time point without overflowing: durations the time point cannot
+/// represent (the builders accept any Duration, including Duration::MAX) mean "far in the future".
+pub(crate) fn add_duration_saturating(timepoint: &Instant, duration: Duration) -> Instant {
+    timepoint.checked_add(duration).unwrap_or_else(|| { *timepoint + Duration::from_secs(60 * 60 * 24 * 365 * 100) })
+}
+
 enum ClientOperationOptions {
     Publish(PublishOptionsInternal),
     Subscribe(SubscribeOptionsInternal),
@@ -1326,7 +1332,7 @@ impl ProtocolState {
         }
 
         if let Some(timeout_duration) = timeout_duration_option {
-            let timeout = now + timeout_duration;
+            let timeout = add_duration_saturating(&now, timeout_duration);
 
             let timeout_record = OperationTimeoutRecord {
                 id,
